@@ -30,7 +30,7 @@ class Raised(Exception):
 
 SAFE_BUILTINS = {
     "len": len, "range": range, "enumerate": enumerate, "str": str, "int": int, "list": list, "tuple": tuple, "sum": sum, "max": max, "min": min,
-    "dedent": textwrap.dedent, "zip": zip, "sorted": sorted, "repr": repr, "bool": bool, "abs": abs, "reversed": reversed, "ord": ord, "chr": chr, "set": set, "frozenset": frozenset, "any": any, "all": all, "dict": dict, "bytes": bytes, "bytearray": bytearray, "divmod": divmod,
+    "dedent": textwrap.dedent, "zip": zip, "sorted": sorted, "repr": repr, "bool": bool, "abs": abs, "reversed": reversed, "ord": ord, "chr": chr, "set": set, "frozenset": frozenset, "any": any, "all": all, "dict": dict, "map": map, "filter": filter, "bytes": bytes, "bytearray": bytearray, "divmod": divmod,
 }
 SAFE_METHODS = {
     str: {"encode", "isdigit", "isalpha", "isalnum", "isnumeric", "isidentifier", "isspace", "join", "strip", "lstrip", "rstrip", "format", "startswith", "endswith", "split", "replace", "upper", "lower", "partition"},
@@ -86,6 +86,30 @@ class Host:
 
     def __init__(self, fn):
         self.fn = fn
+
+
+class LambdaFn:
+    """A lambda of the interpreted fragment: callable from the evaluator and from whitelisted builtins (sorted / max / min keys, map)."""
+
+    def __init__(self, ev: "Evaluator", node: ast.Lambda, env: dict[str, Any]):
+        self.ev, self.node, self.env = ev, node, env
+
+    def __call__(self, *args: Any) -> Any:
+        a = self.node.args
+        params = [x.arg for x in [*a.posonlyargs, *a.args]]
+        if len(args) > len(params) or a.vararg or a.kwarg or a.kwonlyargs:
+            raise Refused("lambda call shape")
+        env = dict(self.env)
+        env.update(zip(params, args))
+        nd = len(a.defaults)
+        for i, p_ in enumerate(params):
+            if p_ not in env or i >= len(args):
+                j = i - (len(params) - nd)
+                if i >= len(args):
+                    if j < 0:
+                        raise Refused("lambda argument missing")
+                    env[p_] = self.ev.ev(a.defaults[j], self.env)
+        return self.ev.ev(self.node.body, env)
 
 
 class Evaluator:
@@ -245,6 +269,10 @@ class Evaluator:
                 return self.call_user(f, args, kwargs)
             if isinstance(f, Host):
                 return f.fn(*args, **kwargs)
+            if isinstance(f, LambdaFn):
+                if kwargs:
+                    raise Refused("keyword call of a lambda")
+                return f(*args)
             if isinstance(f, Sym) and isinstance(getattr(f, "call", None), Host):
                 return f.call.fn(*args, **kwargs)
             if isinstance(f, tuple) and f and f[0] == "symmethod":
@@ -258,7 +286,7 @@ class Evaluator:
                 return dict.fromkeys(*args)
             if f in SAFE_BUILTINS.values() or (hasattr(f, "__self__") and type(f.__self__) in SAFE_METHODS and f.__name__ in SAFE_METHODS[type(f.__self__)]):
                 r = f(*args, **kwargs)
-                if isinstance(r, (range, enumerate, zip)) or type(r).__name__ in ("dict_keys", "dict_values", "dict_items", "reversed", "list_reverseiterator"):
+                if isinstance(r, (range, enumerate, zip, map, filter)) or type(r).__name__ in ("dict_keys", "dict_values", "dict_items", "reversed", "list_reverseiterator"):
                     r = list(r)
                 return r
             raise Refused(f"call of {norm(e.func)}")
@@ -270,6 +298,8 @@ class Evaluator:
             outd: dict = {}
             self._comp(e.generators, 0, dict(env), lambda en: outd.__setitem__(self.ev(e.key, en), self.ev(e.value, en)))
             return outd
+        if isinstance(e, ast.Lambda):
+            return LambdaFn(self, e, dict(env))
         if isinstance(e, ast.NamedExpr):
             v = self.ev(e.value, env)
             env[e.target.id] = v
